@@ -39,6 +39,7 @@ func cells(cfgs, ops []string) []cell {
 // explore enumerates every single fault over the given domains and (depth 2) every second fault at a later
 // call of the faulted run; pairPct < 100 samples the pairs with the seeded PRNG.
 func explore(t *testing.T, r *ev.Run, prop string, cs []cell, domains map[string]bool, pairPct int) {
+	triplePct := ev.Pick(0, 35)
 	rng := rand.New(rand.NewSource(ev.Seed()))
 	pick := func(res result) []verdict {
 		switch prop {
@@ -116,8 +117,31 @@ func explore(t *testing.T, r *ev.Run, prop string, cs []cell, domains map[string
 							r.Count("pairs_skipped_by_sampling", 1)
 							continue
 						}
-						run(c, []fault{f1, {p2.Dom, p2.Idx, k2}})
+						f2 := fault{p2.Dom, p2.Idx, k2}
+						res2, ok := run(c, []fault{f1, f2})
 						r.Count("fault_pairs", 1)
+						if !ok || triplePct <= 0 {
+							continue
+						}
+						// third fault at a later call of the doubly faulted run (thorough tier, sampled)
+						var at2 int64 = -1
+						for _, e := range res2.trace {
+							if e.Dom == f2.Dom && e.Idx == f2.Idx {
+								at2 = e.Seq
+							}
+						}
+						if at2 < 0 {
+							continue
+						}
+						for _, p3 := range positions(res2.trace, at2) {
+							for _, k3 := range validKinds(p3) {
+								if rng.Intn(100) >= triplePct {
+									continue
+								}
+								run(c, []fault{f1, f2, {p3.Dom, p3.Idx, k3}})
+								r.Count("fault_triples", 1)
+							}
+						}
 					}
 				}
 			}
@@ -128,9 +152,9 @@ func explore(t *testing.T, r *ev.Run, prop string, cs []cell, domains map[string
 
 func TestC02(t *testing.T) {
 	r := ev.Start("C02", "fault_enumeration")
-	r.Rule("for each cell (9 key states x {simple cache, no cache, lru cap-1 shared} x {encrypt}) a clean run records the trace of metastore and KMS calls of the operation under test; then EVERY call index gets every fault kind valid for it (Load/LoadLatest: error; Store: error-without-write, false-without-write, write-then-error, write-then-false; KMS: error) and, depth-first, every second fault at every later call of the faulted run. After each execution: record/err shape, IK row and SK row present in the raw store, a brand-new cache-less factory (crash model) decrypts the record, and once faults stop the next encrypt and the earlier records work on the same session. Distinct+non-trivial: (cell, fault plan) pairs in which a fault actually fired.")
+	r.Rule("for each cell (9 key states x {simple cache, no cache, lru cap-1 shared} x {encrypt}) a clean run records the trace of metastore and KMS calls of the operation under test; then EVERY call index gets every fault kind valid for it (Load/LoadLatest: error; Store: error-without-write, false-without-write, write-then-error, write-then-false; KMS: error) and, depth-first, every second fault at every later call of the faulted run (and, thorough tier, a seeded 35% sample of third faults). After each execution: record/err shape, IK row and SK row present in the raw store, a brand-new cache-less factory (crash model) decrypts the record, and once faults stop the next encrypt and the earlier records work on the same session. Distinct+non-trivial: (cell, fault plan) pairs in which a fault actually fired.")
 	r.Assume("virtual clock (testing/synctest) fixes creation stamps", "a crash is modelled by discarding the factory and reading only the metastore and the KMS", "partial writes inside a real database are out of reach")
-	cs := cells([]string{"simple", "nocache", "lru1-shared"}, []string{"enc"})
+	cs := cells(ev.Pick([]string{"simple", "nocache", "lru1-shared"}, []string{"simple", "nocache", "lru1-shared", "sesscache"}), ev.Pick([]string{"enc"}, []string{"enc", "dec"}))
 	explore(t, r, "C02", cs, map[string]bool{"ms": true, "kms": true, "aead": true}, ev.Pick(30, 100))
 	r.Finish(t)
 }
